@@ -289,6 +289,11 @@ func c12R2(p *Prog, r *Report, comm *FuncInfo, ks *switchInfo) {
 			}
 			return true
 		})
+		// the arm may have been moved into a private helper: decide by evaluation
+		if evalBad := commonArmEval(p, comm, k, wantFields, parser); evalBad == "" {
+			r.OK(site, p.PosStr(cc.Pos()), fmt.Sprintf("evaluated with the command fixed: a successful return leaves exactly %v holding parse.%s(rest)", wantFields, parser))
+			continue
+		}
 		if bad != "" {
 			r.Bad(site, p.PosStr(cc.Pos()), bad)
 			continue
@@ -984,4 +989,98 @@ func rootParam(v ssa.Value) *ssa.Parameter {
 		}
 	}
 	return nil
+}
+
+// commonArmEval evaluates config.parseCommon with the command fixed to key and the value produced by
+// parse.<parser>(<the rest parameter>) replaced by a marker: on every successful return exactly the wanted fields
+// hold the marker and no other documented field was written.  "" = proved.
+func commonArmEval(p *Prog, comm *FuncInfo, key string, want []string, parser string) string {
+	sf := p.SSAFunc(comm)
+	if sf == nil {
+		return "no SSA"
+	}
+	var strs []*ssa.Parameter
+	for _, prm := range sf.Params {
+		if types.Identical(prm.Type().Underlying(), types.Typ[types.String]) {
+			strs = append(strs, prm)
+		}
+	}
+	if len(strs) != 2 {
+		return "parameters (cmd, rest) not recognised"
+	}
+	cmd, rest := strs[0], strs[1]
+	var resolve func(v ssa.Value, d int) ssa.Value
+	resolve = func(v ssa.Value, d int) ssa.Value {
+		prm, ok := v.(*ssa.Parameter)
+		if !ok || prm.Parent() == sf || d > 3 {
+			return v
+		}
+		sites := p.SSACallSites(prm.Parent())
+		if len(sites) != 1 {
+			return v
+		}
+		for i, q := range prm.Parent().Params {
+			if q == prm && i < len(sites[0].Common().Args) {
+				return resolve(sites[0].Common().Args[i], d+1)
+			}
+		}
+		return v
+	}
+	tracked := map[string]absVal{}
+	for _, kv := range commonKeys {
+		for _, f := range strings.Split(kv[0], "+") {
+			tracked[f] = aStr("<unset>")
+		}
+	}
+	nParsed := 0
+	sc := &absScenario{
+		tracked:     tracked,
+		unsetMarker: "<unset>",
+		assume: func(v ssa.Value, _ func(ssa.Value) absVal) (absVal, bool) {
+			if v == ssa.Value(cmd) {
+				return aStr(key), true
+			}
+			if ex, ok := v.(*ssa.Extract); ok {
+				if c, ok := ex.Tuple.(*ssa.Call); ok && ssaCalleeObj(c) != nil && isFunc(ssaCalleeObj(c), modPath+"/config/parse", "", parser) && len(c.Call.Args) > 0 && resolve(c.Call.Args[0], 0) == ssa.Value(rest) {
+					switch ex.Index {
+					case 0:
+						nParsed++
+						return aStr("<parsed>"), true
+					case 1:
+						return aNil, true
+					}
+				}
+			}
+			return aUnknown, false
+		},
+	}
+	bad := ""
+	got := absReachState(sf, sc, func(ret *ssa.Return, eval func(ssa.Value) absVal, st map[string]absVal) bool {
+		if a := eval(ret.Results[len(ret.Results)-1]); a.k == absNonNil {
+			return false
+		}
+		for f := range tracked {
+			v := st[f]
+			if has(want, f) {
+				if !(v.k == absStr && v.s == "<parsed>") {
+					bad = "field " + f + " does not hold the parsed value on a successful return"
+					return true
+				}
+			} else if !(v.k == absStr && v.s == "<unset>") {
+				bad = "field " + f + " is written by this setting"
+				return true
+			}
+		}
+		return false
+	})
+	if got != nil {
+		if bad == "" {
+			bad = "the arm could not be evaluated completely"
+		}
+		return bad
+	}
+	if nParsed == 0 {
+		return "parse." + parser + "(rest) is not consulted"
+	}
+	return ""
 }
